@@ -1613,6 +1613,12 @@ impl TcpProxy {
         config: TcpListenerConfig,
         token: Token,
     ) -> Result<Token, ProxyError> {
+        // one listener per address: a second one would bind next to the first
+        // (SO_REUSEPORT) and take a share of its connections with no frontends
+        let address: SocketAddr = config.address.into();
+        if self.listeners.values().any(|l| l.borrow().address == address) {
+            return Err(ProxyError::ListenerAlreadyPresent);
+        }
         match self.listeners.entry(token) {
             Entry::Vacant(entry) => {
                 let tcp_listener =
